@@ -32,6 +32,7 @@ func (e *Exec) dbMaps() (has, khas, vlen, val, bname string) {
 	vlen = e.heapMap("GD_vlen", "(Array Str (Array Str Int))")
 	val = e.heapMap("GD_val", "(Array Str (Array Str (Array Int Int)))")
 	bname = e.heapMap("GD_bname", "(Array Int Str)")
+	e.heapMap("GU_dbputs", "(Array Int Int)")
 	return
 }
 
@@ -92,7 +93,12 @@ func registerBoltModels() {
 				before[n] = e.hget(st, n)
 			}
 			tx := e.alloc(st)
+			// inside Update the transaction is writable (ghost scalar read by the Put model)
+			wr := e.heapMap("GD_writable", "Bool")
+			savedWr := e.hget(st, wr)
+			st.heap[wr] = fmt.Sprint(update)
 			r := e.inlineCall(fr, st, fnv.Fn, fnv.Bind, []Val{{T: tx, Typ: fnv.Fn.Signature.Params().At(0).Type(), NonNil: true}}, pos)
+			st.heap[wr] = savedWr
 			if !update {
 				return Val{T: r.T, Typ: errT}
 			}
@@ -229,7 +235,7 @@ func registerBoltModels() {
 	modelEffects["(*"+boltPkg+".Tx).DeleteBucket"] = eff("GD_has")
 	modelEffects["(*"+boltPkg+".Tx).ForEach"] = dbEff
 	modelEffects["(*"+boltPkg+".Bucket).Get"] = eff("bytes")
-	modelEffects["(*"+boltPkg+".Bucket).Put"] = eff("GD_khas", "GD_vlen", "GD_val")
+	modelEffects["(*"+boltPkg+".Bucket).Put"] = eff("GD_khas", "GD_vlen", "GD_val", "GU_dbputs")
 
 	// ---- Bucket ----
 	models["(*"+boltPkg+".Bucket).Get"] = func(e *Exec, fr *Frame, st *State, args []Val, cc *ssa.CallCommon, pos token.Pos) Val {
@@ -255,6 +261,14 @@ func registerBoltModels() {
 		k := e.strKey(st, args[1])
 		er := e.fresh(st, "put.err", errT)
 		ok := eq(er.T, "nil_iface")
+		// bbolt: Put fails only in a read-only transaction, for a blank or oversized key, or an oversized value
+		wr := e.hget(st, e.heapMap("GD_writable", "Bool"))
+		kl, vl := "(s_len "+args[1].T+")", "(s_len "+args[2].T+")"
+		e.sc.assume(st.reach, implies(and(wr, "(< 0 "+kl+")", "(<= "+kl+" 32768)", "(< "+vl+" 2147483646)"), ok))
+		e.sc.used["bbolt: Bucket.Put fails only in a read-only transaction, for a blank/oversized key or an oversized value (documented)"] = true
+		// ghost counter of successful Put calls per bucket name handle: ghostget("dbputs", 0)
+		cnt := e.heapMap("GU_dbputs", "(Array Int Int)")
+		e.hset(st, cnt, sto(e.hget(st, cnt), "0", fmt.Sprintf("(+ (select %s 0) (ite %s 1 0))", e.hget(st, cnt), ok)))
 		content := e.seqOfSlice(st, args[2].T)
 		ok1, ov, oc := e.hget(st, khas), e.hget(st, vlen), e.hget(st, val)
 		e.hchoose(st, khas, ok, sto(ok1, name, sto(sel(ok1, name), k, "true")), ok1)
